@@ -50,8 +50,46 @@ func main() {
 		if err != nil {
 			return err
 		}
+		// the clamp of the capacity hints: `maxRuleCount := (len(line)+len(text))/D + A` followed by
+		// `for i := range dskr { dskr[i] = min(dskr[i], maxRuleCount) }`, before the builders are made
+		var clampDiv, clampAdd string
+		var clampStmt ast.Node
+		clampPos, loopPos, makePos := token.NoPos, token.NoPos, token.NoPos
+		for _, st := range fd.Body.List {
+			src := ds.Src(st)
+			if as, ok := st.(*ast.AssignStmt); ok && len(as.Lhs) == 1 && ds.Src(as.Lhs[0]) == "maxRuleCount" {
+				be, ok := as.Rhs[0].(*ast.BinaryExpr)
+				if !ok || be.Op != token.ADD {
+					return fmt.Errorf("domainset.BuilderFromText: unrecognised clamp %q", src)
+				}
+				q, ok := be.X.(*ast.BinaryExpr)
+				if !ok || q.Op != token.QUO || ds.Src(q.X) != "(len(line) + len(text))" {
+					return fmt.Errorf("domainset.BuilderFromText: unrecognised clamp %q", src)
+				}
+				d, ok1 := ds.EvalInt(q.Y)
+				a, ok2 := ds.EvalInt(be.Y)
+				if !ok1 || !ok2 {
+					return fmt.Errorf("domainset.BuilderFromText: non-constant clamp %q", src)
+				}
+				clampDiv, clampAdd, clampStmt, clampPos = d, a, st, st.Pos()
+			}
+			if src == "for i := range dskr { dskr[i] = min(dskr[i], maxRuleCount) }" {
+				loopPos = st.Pos()
+			}
+			if strings.HasPrefix(src, "dsb := Builder{") {
+				makePos = st.Pos()
+			}
+		}
+		if clampStmt == nil || loopPos == token.NoPos || makePos == token.NoPos || !(clampPos < loopPos && loopPos < makePos) {
+			return fmt.Errorf("domainset.BuilderFromText: the capacity hints are not clamped by the text size before the builders are made (clamp %v, loop %v, make %v)", clampPos != token.NoPos, loopPos != token.NoPos, makePos != token.NoPos)
+		}
+		l.NatDef("hintClampDiv", clampDiv, "domainset.BuilderFromText: maxRuleCount := (len(line)+len(text))/D + A")
+		l.NatDef("hintClampAdd", clampAdd, "domainset.BuilderFromText: maxRuleCount := (len(line)+len(text))/D + A")
 		lits := map[string]int{}
 		ast.Inspect(fd.Body, func(n ast.Node) bool {
+			if n == clampStmt {
+				return false
+			}
 			if ix, ok := n.(*ast.IndexExpr); ok {
 				if id, ok := ix.X.(*ast.Ident); ok && id.Name == "dskr" {
 					return false // the capacity-hint slots dskr[0..3]
